@@ -1,24 +1,24 @@
 #!/bin/bash
 # usage: lib/try_seeded.sh <patch.diff> <Cxx> [quick|thorough]
-# Applies a seeded change to a scratch worktree of /repo (never to /repo itself), runs the check against it
-# (VERIF_REPO), prints the verdict, removes the worktree.
+# Applies a seeded change to a scratch worktree of /repo (never to /repo itself), runs the check of this
+# verif tree (the one this script lives in; may be a snapshot copy) against it (VERIF_REPO), prints the
+# verdict lines, removes the worktree and regenerates the translated files for the real tree.
 set -u
+ROOT=$(cd "$(dirname "$0")/.." && pwd)
 PATCH=$(realpath "$1"); PID=$2; TIER=${3:-quick}
 WT=/tmp/seedtest/$$; mkdir -p /tmp/seedtest
 git -C /repo worktree add -q --detach "$WT" HEAD || exit 2
 ( cd "$WT" && git apply "$PATCH" ) || { echo "PATCH DOES NOT APPLY"; git -C /repo worktree remove --force "$WT"; exit 2; }
-cd /verif
+cd "$ROOT"
 export VERIF_REPO="$WT"
-# separate lean Generated dir is shared: regenerate from the seeded tree, then restore afterwards
 ./check "$PID" "$TIER" 2>&1 | grep -v "^\[" | head -8
 RC=${PIPESTATUS[0]}
 git -C /repo worktree remove --force "$WT"
 unset VERIF_REPO
-# restore generated files for the real tree
-python3 - <<'PY'
-import sys; sys.path.insert(0,'/verif'); 
-import importlib.machinery, importlib.util
-loader=importlib.machinery.SourceFileLoader('chk','/verif/check'); spec=importlib.util.spec_from_loader('chk',loader); m=importlib.util.module_from_spec(spec); loader.exec_module(m)
+ROOT="$ROOT" python3 - <<'PY'
+import os, importlib.machinery, importlib.util
+root=os.environ['ROOT']
+loader=importlib.machinery.SourceFileLoader('chk',root+'/check'); spec=importlib.util.spec_from_loader('chk',loader); m=importlib.util.module_from_spec(spec); loader.exec_module(m)
 m.run_translator()
 PY
 echo "exit=$RC"
